@@ -235,8 +235,8 @@ def run_impl(c):
         exp_n = copy.deepcopy(nprops)
         exp_e = copy.deepcopy(eprops)
         try:
-            write_arrays(store, nids, nprops, eids, eprops, md, zarr_format=c["fmt"], structure_validation=c["validate"],
-                         overwrite=c["overwrite"])
+            write_arrays(store, nids, nprops, eids, eprops, md, zarr_format=c["fmt"], **({} if c["validate"] else {"structure_validation": False}),
+                         **({"overwrite": True} if c["overwrite"] else {}))
             obs["res"] = ["ok"]
         except Exception as e:
             obs["res"] = ["err", exn_name(e), str(e)[:120]]
